@@ -53,12 +53,23 @@ func (s *bungeeServer) PlayerCount() int {
 	}
 	return s.s.Players().Len()
 }
+
+// BroadcastPluginMessage passes the plugin message on to the backend server itself (once),
+// over the server connection of one of the players currently connected to it.
+// Nothing is sent if no player is connected to the server.
 func (s *bungeeServer) BroadcastPluginMessage(identifier message.ChannelIdentifier, data []byte) {
 	if s == nil {
 		return
 	}
-	sinks := PlayersToSlice[message.ChannelMessageSink](s.s.Players())
-	BroadcastPluginMessage(sinks, identifier, data)
+	for _, p := range PlayersToSlice[*connectedPlayer](s.s.Players()) {
+		conn := p.connectedServer()
+		if conn == nil || conn.Server() != s.s {
+			continue
+		}
+		if conn.SendPluginMessage(identifier, data) == nil {
+			return // delivered
+		}
+	}
 }
 func (s *bungeeServer) Connect(player bungeecord.Player) {
 	if s == nil {
